@@ -4,7 +4,8 @@
 (* variables of DiscCache, and TLC evaluates every clause of the property in every      *)
 (* state of every trace.  A batch of traces of one (Kind, Tol) configuration per run.   *)
 (* Events (JSON objects, all fields always present):                                    *)
-(*   op in "exec" | "lin"  : c (cell or "lit"), x = [xi, zi] the completed input,       *)
+(*   op in "exec" | "lin"  : c (cell or "lit"), x = [xi, zi] the completed input AT CALL *)
+(*                            TIME, after (lattice index in the caller's array afterwards), *)
 (*                            hasOut, src, ran, req, jl, jsrc, lin  as in DiscCache!ret *)
 (*                            (src / jsrc = [0, 0] when the returned value is not the   *)
 (*                            value of any lattice point);                              *)
@@ -30,7 +31,10 @@ Step == l <= Len(T.events) /\ l' = l + 1 /\ UNCHANGED tid
 \* the recorded input of a call through a cell is the content of that cell (recorder sanity)
 TCall    == /\ Step /\ Ev.op \in {"exec", "lin"}
             /\ (Ev.c \in Cells => Ev.x[1] = cell[Ev.c])
-            /\ Observe(Rec(Ev)) /\ UNCHANGED cell
+            /\ Observe(Rec(Ev))
+            \* after: content of the caller's array after the call (a self-coupled discipline whose body
+            \* updates its input in place has changed it)
+            /\ cell' = IF Ev.c \in Cells THEN [cell EXCEPT ![Ev.c] = Ev.after] ELSE cell
 TMutate  == /\ Step /\ Ev.op = "mutate"
             /\ cell' = [cell EXCEPT ![Ev.c] = Ev.v] /\ UNCHANGED hvars
 TReset   == /\ Step /\ Ev.op \in {"clear", "setcache"}
